@@ -146,7 +146,6 @@ open Jedi.Gen.AsmX86
 /-! ## symbolic execution, cut into pieces -/
 
 set_option maxHeartbeats 1600000 in
-set_option maxRecDepth 100000 in
 theorem mulx768_part0 (s : State) (pr pa pb : Word)
     (hr : Buf s pr 12 true) (ha : Buf s pa 6 false) (hb : Buf s pb 6 false)
     (hra : X86.Disjoint pr 12 pa 6) (hrb : X86.Disjoint pr 12 pb 6)
@@ -182,7 +181,6 @@ theorem mulx768_part0 (s : State) (pr pa pb : Word)
   x86_sym [hst, hpc, hdi, hsi, hdx, sub8x3_toNat, sub8x4_toNat, mulLo_fold, mulHi_fold, logic, BitVec.xor_self, ← ha0, ← hb0, ← hb1, ← hb2, ← hb3, ← hb4, ← hb5, ← hm7l, ← hm7h, ← hm9l, ← hm9h, ← ht10, ← hm11l, ← hm11h, ← ht12, ← hm13l, ← hm13h, ← ht14, ← hm15l, ← hm15h, ← ht16, ← hm17l, ← hm17h, ← ht18, ← ht19, ← ht20]
 
 set_option maxHeartbeats 1600000 in
-set_option maxRecDepth 100000 in
 theorem mulx768_part1 (s : State) (pr pa pb : Word)
     (hr : Buf s pr 12 true) (ha : Buf s pa 6 false) (hb : Buf s pb 6 false)
     (hra : X86.Disjoint pr 12 pa 6) (hrb : X86.Disjoint pr 12 pb 6)
@@ -219,7 +217,6 @@ theorem mulx768_part1 (s : State) (pr pa pb : Word)
   x86_sym [sub8x3_toNat, sub8x4_toNat, mulLo_fold, mulHi_fold, logic, BitVec.xor_self, ← ha1, ← hb0, ← hb1, ← hb2, ← hb3, ← hb4, ← hb5, ← hm22l, ← hm22h, ← ht23, ← hm25l, ← hm25h, ← ht26, ← ht27, ← hm28l, ← hm28h, ← ht29, ← ht30, ← hm31l, ← hm31h, ← ht32, ← ht33, ← hm34l, ← hm34h, ← ht35, ← ht36, ← hm37l, ← hm37h, ← ht38, ← ht39, ← ht40, ← ht41]
 
 set_option maxHeartbeats 1600000 in
-set_option maxRecDepth 100000 in
 theorem mulx768_part2 (s : State) (pr pa pb : Word)
     (hr : Buf s pr 12 true) (ha : Buf s pa 6 false) (hb : Buf s pb 6 false)
     (hra : X86.Disjoint pr 12 pa 6) (hrb : X86.Disjoint pr 12 pb 6)
@@ -256,7 +253,6 @@ theorem mulx768_part2 (s : State) (pr pa pb : Word)
   x86_sym [sub8x3_toNat, sub8x4_toNat, mulLo_fold, mulHi_fold, logic, BitVec.xor_self, ← ha2, ← hb0, ← hb1, ← hb2, ← hb3, ← hb4, ← hb5, ← hm43l, ← hm43h, ← ht44, ← hm46l, ← hm46h, ← ht47, ← ht48, ← hm49l, ← hm49h, ← ht50, ← ht51, ← hm52l, ← hm52h, ← ht53, ← ht54, ← hm55l, ← hm55h, ← ht56, ← ht57, ← hm58l, ← hm58h, ← ht59, ← ht60, ← ht61, ← ht62]
 
 set_option maxHeartbeats 1600000 in
-set_option maxRecDepth 100000 in
 theorem mulx768_part3 (s : State) (pr pa pb : Word)
     (hr : Buf s pr 12 true) (ha : Buf s pa 6 false) (hb : Buf s pb 6 false)
     (hra : X86.Disjoint pr 12 pa 6) (hrb : X86.Disjoint pr 12 pb 6)
@@ -293,7 +289,6 @@ theorem mulx768_part3 (s : State) (pr pa pb : Word)
   x86_sym [sub8x3_toNat, sub8x4_toNat, mulLo_fold, mulHi_fold, logic, BitVec.xor_self, ← ha3, ← hb0, ← hb1, ← hb2, ← hb3, ← hb4, ← hb5, ← hm64l, ← hm64h, ← ht65, ← hm67l, ← hm67h, ← ht68, ← ht69, ← hm70l, ← hm70h, ← ht71, ← ht72, ← hm73l, ← hm73h, ← ht74, ← ht75, ← hm76l, ← hm76h, ← ht77, ← ht78, ← hm79l, ← hm79h, ← ht80, ← ht81, ← ht82, ← ht83]
 
 set_option maxHeartbeats 1600000 in
-set_option maxRecDepth 100000 in
 theorem mulx768_part4 (s : State) (pr pa pb : Word)
     (hr : Buf s pr 12 true) (ha : Buf s pa 6 false) (hb : Buf s pb 6 false)
     (hra : X86.Disjoint pr 12 pa 6) (hrb : X86.Disjoint pr 12 pb 6)
@@ -331,7 +326,6 @@ theorem mulx768_part4 (s : State) (pr pa pb : Word)
   x86_sym [sub8x3_toNat, sub8x4_toNat, mulLo_fold, mulHi_fold, logic, BitVec.xor_self, ← ha4, ← hb0, ← hb1, ← hb2, ← hb3, ← hb4, ← hb5, ← hm85l, ← hm85h, ← ht86, ← hm88l, ← hm88h, ← ht89, ← ht90, ← hm91l, ← hm91h, ← ht92, ← ht93, ← hm94l, ← hm94h, ← ht95, ← ht96, ← hm97l, ← hm97h, ← ht98, ← ht99, ← hm100l, ← hm100h, ← ht101, ← ht102, ← ht103, ← ht104]
 
 set_option maxHeartbeats 1600000 in
-set_option maxRecDepth 100000 in
 theorem mulx768_part5 (s : State) (pr pa pb : Word)
     (hr : Buf s pr 12 true) (ha : Buf s pa 6 false) (hb : Buf s pb 6 false)
     (hra : X86.Disjoint pr 12 pa 6) (hrb : X86.Disjoint pr 12 pb 6)
@@ -369,7 +363,6 @@ theorem mulx768_part5 (s : State) (pr pa pb : Word)
   x86_sym [sub8x3_toNat, sub8x4_toNat, mulLo_fold, mulHi_fold, logic, BitVec.xor_self, ← ha5, ← hb0, ← hb1, ← hb2, ← hb3, ← hb4, ← hb5, ← hm106l, ← hm106h, ← ht107, ← hm109l, ← hm109h, ← ht110, ← ht111, ← hm112l, ← hm112h, ← ht113, ← ht114, ← hm115l, ← hm115h, ← ht116, ← ht117, ← hm118l, ← hm118h, ← ht119, ← ht120, ← hm121l, ← hm121h, ← ht122, ← ht123, ← ht124, ← ht125]
 
 set_option maxHeartbeats 1600000 in
-set_option maxRecDepth 100000 in
 theorem mulx768_part6 (s : State) (pr pa pb : Word)
     (hr : Buf s pr 12 true) (ha : Buf s pa 6 false) (hb : Buf s pb 6 false)
     (hra : X86.Disjoint pr 12 pa 6) (hrb : X86.Disjoint pr 12 pb 6)
@@ -397,7 +390,6 @@ theorem mulx768_part6 (s : State) (pr pa pb : Word)
 
 
 set_option maxHeartbeats 1600000 in
-set_option maxRecDepth 100000 in
 set_option exponentiation.threshold 800 in
 /-- `void bmi2_adx_bigint_768_multiply(res, a, b)`: the twelve limbs of `res` are `a · b` -/
 theorem bmi2_adx_bigint_768_multiply_run (s : State) (pr pa pb : Word)
